@@ -276,7 +276,9 @@ def main(rep, tier, only):
         key = "fill|N=%s" % k
         why = None
         try:
-            cfg3 = sx.Config(inline_prefixes=(), pure=(G + "pos_reference::value", G + "pos_reference::pos", G + "make_pos_ref_range"), loop_bound=1)
+            # range-for over the pos_ref_range or an explicit loop with its iterators (positions of the same range)
+            cfg3 = sx.Config(inline_prefixes=(), pure=(G + "pos_reference::value", G + "pos_reference::pos", G + "make_pos_ref_range"), loop_bound=1,
+                             lvalues=True, iter_positions=True, iter_classes=("fcppt::iterator::base::",))
             ps = sx.Interp(db, cfg3).paths(fn)
             one = [p for p in ps if any(e[0] == "write" for e in p.events)]
             if not one:
@@ -284,11 +286,23 @@ def main(rep, tier, only):
             for p in one:
                 w = [e for e in p.events if e[0] == "write"][0]
                 c = [e for e in p.events if e[0] == "call"]
-                tgt, val = sx.show(w[1][0]), sx.show(w[1][1])
+
+                def full(t, p=p):
+                    """`#k:begin` spelled out as begin(<receiver>)"""
+                    for _ in range(4):
+                        t2 = re.sub(r"#(\d+):(c?begin)", lambda m: "%s(%s)" % (m.group(2), ", ".join(sx.show(a) for a in p.events[int(m.group(1)) - 1][1])), t)
+                        if t2 == t:
+                            break
+                        t = t2
+                    return t
+                tgt, val = full(sx.show(w[1][0])), sx.show(w[1][1])
+                if c:
+                    c = [(c[0][0], [("t", full(sx.show(a))) for a in c[0][1]])]
                 if "make_pos_ref_range(r_a0)" not in tgt or not tgt.startswith("value("):
                     why = "the written object is not the visited element's value (%s)" % tgt
-                if not c or [sx.show(a)[:4] for a in c[0][1]][:2] != ["r_a1", "pos("] or not val.startswith("#"):
-                    why = "the written value is not _function(element.pos())"
+                ctx = [a[1] for a in c[0][1]] if c else []
+                if not c or [a[:4] for a in ctx][:2] != ["r_a1", "pos("] or not val.startswith("#") or ctx[1][3:] != tgt[5:]:
+                    why = "the written value is not _function(element.pos()) of the element that is written"
         except sx.Unsupported as e:
             why = "outside the interpreted fragment: %s" % e
         (rep.fail if why else rep.ok)("PROV", key, F.primary_site(fn), F.describe(fn)[:160], **({"why": why} if why else {"how": "element.value()=f(element.pos())"}))
@@ -388,6 +402,7 @@ def main(rep, tier, only):
             continue
         seen.add(N)
         lams = [x for x in F.walk(fn.get("body"), into_lambdas=False) if x.get("k") == "lambda"]
+        odefs = T.const_local_defs(u, fn)      # named references to _min.get() / _sup.get() stand for their initialisers
         cur, mn, sp = (p_["name"] for p_ in fn["params"][:3])
         why = None
         nops = 0
@@ -409,12 +424,12 @@ def main(rep, tier, only):
                     if n is not None and n.get("k") == "call" and n.get("recv") is not None and not n.get("args"):
                         short = (T.callee_qn(u, n) or "").split("::")[-1]
                         if short in ("x", "y", "z", "w") and "math::vector::object" in (T.callee_qn(u, n) or ""):
-                            return ("xyzw".index(short), T.show(T.norm(u, n["recv"])))   # named accessors are at<0..3>
+                            return ("xyzw".index(short), T.show(T.norm(u, n["recv"], odefs)))   # named accessors are at<0..3>
                     if n is None or n.get("k") != "call" or (T.callee_qn(u, n) or "") != "fcppt::math::vector::at":
                         return None
                     d = T.callee_decl(u, n)
                     m = re.match(r"^(\d+)", (d.get("targs") or ["?"])[0])
-                    return (int(m.group(1)) if m else None, T.show(T.norm(u, n["args"][0])))
+                    return (int(m.group(1)) if m else None, T.show(T.norm(u, n["args"][0], odefs)))
                 ifs = [x for x in F.walk(op.get("body"), into_lambdas=False) if x.get("k") == "if"]
                 if len(ifs) != 1:
                     why = "expected exactly one carry test per dimension"
